@@ -162,3 +162,73 @@ def common_shrinks(scn):
             s["device"]["layer"][key] = float(f"{dv['layer'][key] / f:.6g}")
         s["device"]["length_units"] = "um"
         yield s
+
+
+# ------------------------------------------------------------------ Engine-A helper
+def physics_run(scn, checkers, nontrivial, sig, extra=None, post=None, **kw):
+    """Run an Engine-A scenario with online checkers.
+
+    nontrivial(h, checkers) -> bool, sig(h) -> tuple, extra(h, checkers) -> dict,
+    post(sim, h) -> list of Violations evaluated on the recorded history afterwards.
+    """
+    from ..engine import run_scenario as _run
+
+    sim, h = _run(scn, checkers=checkers, **kw)
+    try:
+        V = list(sim.violations)
+        if h.outcome.startswith("rejected"):
+            if post is not None:
+                V += post(sim, h) or []
+            if not V:
+                raise Discard(f"rejected:{h.exc[0]}:{h.exc[1][:50]}")
+        elif post is not None:
+            V += post(sim, h) or []
+        if h.outcome.startswith("raised") and not expected_library_error(h) and not injected(h.exc_obj):
+            h.probe("unexpected-exception:" + h.exc[0])
+        # de-duplicate by rule: the first occurrence of every rule is the report
+        seen = set()
+        Vd = []
+        for v in V:
+            if v["rule"] not in seen:
+                seen.add(v["rule"])
+                Vd.append(v)
+        base_sig = (
+            h.outcome,
+            len(scn["device"].get("terminals", [])),
+            len(scn["device"].get("holes", [])),
+            scn["drive"]["field"]["kind"],
+            (scn["drive"].get("currents") or {}).get("kind"),
+            (scn["drive"].get("epsilon") or {}).get("kind"),
+            bool(scn["options"].get("include_screening")),
+            bool(scn["options"].get("adaptive")),
+            bool(scn["options"].get("skip_time")),
+            tuple(sorted({f["kind"] for f in h.faults_fired})),
+        )
+        return summarize(scn, h, Vd, nontrivial(h, checkers), base_sig + tuple(sig(h) if sig else ()), extra=extra(h, checkers) if extra else None)
+    finally:
+        sim.cleanup()
+
+
+def physics_shrinks(scn):
+    yield from common_shrinks(scn)
+    o = scn["options"]
+    for key, default in (("save_every", 100), ("adaptive_window", 10), ("max_solve_retries", 10), ("adaptive_time_step_multiplier", 0.25)):
+        if key in o and o[key] != default:
+            yield with_path(scn, ["options", key], default)
+    if o.get("terminal_psi", 0.0) != 0.0:
+        yield with_path(scn, ["options", "terminal_psi"], 0.0)
+    dv = scn["device"]
+    terms = dv.get("terminals", [])
+    cur = scn["drive"].get("currents")
+    if len(terms) > 2 and cur is not None and cur["kind"] == "const":
+        # drop the last terminal and re-balance on the first two
+        s = copy.deepcopy(scn)
+        s["device"]["terminals"] = terms[:2]
+        a = cur["I"][terms[0]["name"]] or 1.0
+        s["drive"]["currents"] = {"kind": "const", "I": {terms[0]["name"]: a, terms[1]["name"]: -a}}
+        yield s
+    for fu, cu in (("mT", "uA"),):
+        if o.get("field_units", "mT") != fu and scn["drive"]["field"]["kind"] == "zero":
+            yield with_path(scn, ["options", "field_units"], fu)
+        if o.get("current_units", "uA") != cu and cur is None:
+            yield with_path(scn, ["options", "current_units"], cu)
